@@ -19,7 +19,8 @@ Record fld := mkFld {
   f_size : Z; f_align : Z;
   f_a1 : bool;            (* an `Align1` impl applies to the field's type *)
   f_nouninit : bool; f_zeroable : bool; f_checked : bool; f_pod : bool;
-  f_param : bool;         (* the type is the type parameter T (instantiated: the other components describe the instance) *)
+  f_param : bool;         (* the type is the type parameter T (instantiated: the other components describe the instance),
+                             or a tuple one of whose elements is T *)
   f_valid : list Z -> bool
 }.
 Definition lay (f : fld) : field := (f_size f, f_align f).
@@ -470,8 +471,22 @@ Definition valid_of (k : vkind) (bytes : list Z) : bool :=
 Definition mk (s a : Z) (a1 nu ze ch pod : bool) (k : vkind) : fld := mkFld s a a1 nu ze ch pod false (valid_of k).
 Definition pod_fld (s a : Z) : fld := mk s a (a =? 1) true true true true VAny.
 
+(* a tuple type (E1, .., En) as a field type.  Layout: a repr(Rust) aggregate of its elements (Layout.v: alignment =
+   the largest element alignment, size = the sum rounded up to it).  Marker traits:
+     Align1     star_frame/src/align1.rs 40-66 `unsafe impl<T1..Tn> Align1 for (T1, .., Tn) where T1: Align1, .., Tn: Align1`
+                (arities 1..16): a tuple is Align1 iff EVERY element is
+     Zeroable   bytemuck 1.23.2 zeroable.rs 122-170 (arities 1..8): iff every element is
+     Pod / NoUninit / CheckedBitPattern   no impl for tuples (CheckedBitPattern only through the blanket impl for Pod)
+   so every zero_copy flavour and the generated sized part reject a tuple field; f_valid is never consulted *)
+Definition rust_repr : repr := mkRepr BRust None None.
+Definition tuple_fld (es : list fld) : fld :=
+  mkFld (struct_size rust_repr (lays es)) (struct_align rust_repr (lays es))
+        (forallb f_a1 es) false (forallb f_zeroable es) false false (existsb f_param es) (fun _ => false).
+
 (* the field-type menu (same codes as FIELDS in lib/props/c19.py); traits as implemented by star_frame
    (align1.rs 28-66, packed_value.rs), solana-pubkey and bytemuck 1.23.2 *)
+Definition u8_fld : fld := pod_fld 1 1.
+Definition bool_fld : fld := mk 1 1 true true true true false VBool.
 Definition menu (c : Z) : option fld :=
   if c =? 0 then Some (pod_fld 1 1)                                       (* u8 *)
   else if c =? 1 then Some (mk 1 1 true true true true false VBool)        (* bool *)
@@ -492,14 +507,28 @@ Definition menu (c : Z) : option fld :=
   else if c =? 16 then Some (mk 1 1 true true true true false VBool)       (* PackedValueChecked<bool> *)
   else if c =? 17 then Some (mk 2 1 true true true true false VAny)        (* PackedValueChecked<u16> *)
   else if (20 <=? c) && (c <=? 32) then Some (pod_fld (c - 20) 1)         (* [u8; N] *)
+  else if c =? 18 then Some (tuple_fld [u8_fld; u8_fld])                   (* (u8, u8) *)
+  else if c =? 19 then Some (tuple_fld [u8_fld])                           (* (u8,) *)
+  else if c =? 33 then Some (tuple_fld [pod_fld 2 2])                      (* (u16,) *)
+  else if c =? 34 then Some (tuple_fld [pod_fld 2 2; u8_fld])              (* (u16, u8) *)
+  else if c =? 35 then Some (tuple_fld [u8_fld; pod_fld 2 2])              (* (u8, u16) *)
+  else if c =? 36 then Some (tuple_fld [pod_fld 8 8; u8_fld])              (* (u64, u8) *)
+  else if c =? 37 then Some (tuple_fld [u8_fld; pod_fld 8 8])              (* (u8, u64) *)
+  else if c =? 38 then Some (tuple_fld [u8_fld; bool_fld; u8_fld])         (* (u8, bool, u8) *)
+  else if c =? 39 then Some (tuple_fld [pod_fld 4 4; u8_fld; u8_fld])      (* (u32, u8, u8) *)
+  else if c =? 40 then Some (tuple_fld [u8_fld; pod_fld 2 2; u8_fld])      (* (u8, u16, u8) *)
   else None.
 
 Definition as_param (f : fld) : fld :=
   mkFld (f_size f) (f_align f) (f_a1 f) (f_nouninit f) (f_zeroable f) (f_checked f) (f_pod f) true (f_valid f).
 
-(* 99 = the type parameter, described by its instantiation *)
+(* 99 = the type parameter, described by its instantiation; 97 = the tuple (T, u8), 98 = the tuple (u8, T): the
+   parameter INSIDE a tuple field (the tuple's Align1 impl is then selected at the instantiation, like a bound on T) *)
 Definition field_of (inst : option fld) (c : Z) : option fld :=
-  if c =? 99 then match inst with Some f => Some (as_param f) | None => None end else menu c.
+  if c =? 99 then match inst with Some f => Some (as_param f) | None => None end
+  else if c =? 97 then match inst with Some f => Some (tuple_fld [as_param f; u8_fld]) | None => None end
+  else if c =? 98 then match inst with Some f => Some (tuple_fld [u8_fld; as_param f]) | None => None end
+  else menu c.
 
 (* the unsized-field menu (UFIELDS in lib/props/c19.py) *)
 Definition zst_at_end : uty := UStruct (Some 1) [URemaining].      (* the doctest's ZstAtEnd *)
